@@ -130,6 +130,8 @@ Inductive answer :=
 | A401 (hdr : str)    (* 401 with this Www-Authenticate header *)
 | ATok (id : N)       (* token endpoint: 200 with a non-empty token *)
 | AFail               (* token endpoint: anything else *)
+| AShare (id : N)     (* no request of this call: the cache handed it the token that a concurrent
+                         call's in-flight fetch for the same host, scheme and key obtained *)
 | AErr.               (* no response: transport error or cancelled context *)
 
 Inductive err := ENoCred | EMissing | EFetch | ERewind | ETransport | ECred.
@@ -255,6 +257,7 @@ Definition do_request (clean : list str -> list str) (parse : str -> scheme * pa
         | FPSend s =>
           match script2 with
           | ATok id :: script3 => finish [(s, ATok id)] (SIssued h id) script3
+          | AShare id :: script3 => finish [] (SIssued h id) script3
           | AFail :: _ => (evs0 ++ [(s, AFail)], c, RErr EFetch)
           | AErr :: _ => (evs0 ++ [(s, AErr)], c, RErr ETransport)
           | _ => (evs0, c, RBad)
